@@ -13,3 +13,17 @@ claim(
     "Trusted: python ast, bfsa abstract interpreter and guard normal forms, spec/layout.json (transcribed from the property text). cmac is taken as the documented MAC (C03/C16 clauses). Dominance is structural (if/loop/try nesting), sound for this goto-free code.",
     "DESIGN.md section 4, C05",
 )
+claim(
+    "C03", "other",
+    "byte-layout abstract interpretation of the writer and consumption-grammar extraction of the reader, both matched against an independently transcribed layout table; length/offset terms compared as symbolic linear forms; MAC coverage by segment equality",
+    "Decides the structural content: the value returned by to_binary (both passes inlined) has exactly the documented segment sequence (widths, big-endian, nesting, sentinel, payload area, nothing after); every length prefix is len() of exactly the region that follows; addresses start at offset + size of size-field+directory (the size pass has the same symbolic length as the real pass) and advance by the stored length; entry MAC covers the entry prefix with IV = 1-based index (16-byte big-endian), payload MAC covers the stored bytes; MAC = last 16 bytes of zero-padded CBC through the registered adapter; BEC2 header framing and body offset; text envelope (comment lines, blank line, 40-byte upper-case hex lines covering all data). The reader grammar is matched to the same table, so symmetric writer/reader errors are caught. Byte equality with an independent AES implementation is not decided.",
+    "Trusted: python ast, bfsa, spec/layout.json (transcribed from the property statement). AES block function correctness is C16's clause.",
+    "DESIGN.md section 4, C03",
+)
+claim(
+    "C01", "other",
+    "writer layout and reader grammar extracted by abstract interpretation and matched to one layout table; slot-to-attribute provenance on both sides; regex character-class and format-string analysis of the text envelope; type-consistency rule for tag-value comparisons",
+    "Decides that the reader is the structural inverse of the writer: both sides have the same layout; each slot is written from the attribute (description, blob via get_raw_data, actual_len) that the reader's value for that slot is stored into; MAC coverage/IV/key agree; comment lines '{}: {}' are undone by split(':',1)+strip, the block ends at the empty line, hex2bin removes exactly the separators the writer emits and no hex digit, CRLF translation is undone by universal-newline reading; the ENC tag is compared with the encoding the writer emits; reads are exact. Equality of arbitrary payload values after an executed round trip is not decided.",
+    "Trusted: python ast, bfsa, spec/layout.json. Comment keys/values are as restricted in the property's quantifier.",
+    "DESIGN.md section 4, C01",
+)
